@@ -211,6 +211,7 @@ func oracleTCP(c Case) error {
 		}
 		defer conn.Close()
 		conn.(*net.TCPConn).SetNoDelay(true)
+		conn.(*net.TCPConn).SetLinger(0) // no TIME_WAIT: tens of thousands of cases per run
 		conn.SetDeadline(time.Now().Add(60 * time.Second))
 		ann := make([]byte, len(announcement(c.Abridged)))
 		if _, err := io.ReadFull(conn, ann); err != nil || !bytes.Equal(ann, announcement(c.Abridged)) {
